@@ -480,6 +480,13 @@ def deep_program(depth, rot, kind):
     elif kind == 'table':
         lines += [b't={', b'{', b'1,', b'},', b'f(', b'2', b')', b'}']
         depths += [d, d + 1, d + 2, d + 1, d + 1, d + 2, d + 1, d]
+    elif kind == 'fields':
+        # every kind of table field with a value that spans lines: positional, named, computed key (and a computed key
+        # that itself spans lines), followed by an ordinary field
+        lines += [b't={', b'[1]={', b'2,', b'},', b'["k"]=function()', b'x=1', b'end,', b'[k+1]=f(', b'3', b'),', b'n={', b'4', b'};',
+                  b'[', b'q', b']=5,', b'function()', b'return', b'end,', b'6', b'}']
+        depths += [d, d + 1, d + 2, d + 1, d + 1, d + 2, d + 1, d + 1, d + 2, d + 1, d + 1, d + 2, d + 1,
+                   d + 1, d + 2, d + 1, d + 1, d + 2, d + 1, d + 1, d]
     else:
         lines += [b'-- c', b'x=1 // e']
         depths += [d, d]
@@ -492,7 +499,7 @@ def deep_program(depth, rot, kind):
 def check_deep(tier, res):
     maxd = 18 if tier == 'quick' else 40
     for depth in list(range(1, 12)) + [12, 16, 17, maxd]:
-        for kind in ('stat', 'table', 'comment'):
+        for kind in ('stat', 'table', 'fields', 'comment'):
             for rot in ((0, 3) if tier == 'quick' else range(len(DEEP_OPENERS))):
                 lines, depths = deep_program(depth, rot, kind)
                 base = b''.join(ln + b'\n' for ln in lines)
